@@ -11,13 +11,15 @@
 (* cc = the job's context was cancelled (read while the event is logged);         *)
 (* errors: 0 nil, j = job j's own error, 100 parent cause, 101 context.Canceled,  *)
 (* 102 ErrJobWorkerDone, 150 the error of pref, 199 anything else.                *)
-(* Not logged, hence internal steps the search places: the cancel call of a       *)
-(* failing job (CancelCauseK), the moment a NewJob call is accepted (LinAccept),  *)
+(* Not logged, hence internal steps the search places: the tail of a failing job  *)
+(* (cancel call, then release of its slot - the order the statement needs - as    *)
+(* one step: CancelCauseK; a succeeding job frees its slot with its End event),   *)
+(* the moment a NewJob call is accepted (LinAccept),                              *)
 (* the moment a CancelCall takes effect (LinCancel), the moment Wait /            *)
 (* RunJobWorker / BatchWork computes its answer (LinWait, LinRun).                *)
 (* A trace is explained iff some path consumes all its events; GiveUp lets the   *)
-(* search go on with the next trace (the file ends with an Eof event); unexplained traces are printed (NOTOK) and   *)
-(* then validated alone to find the first unexplained event (HW).                 *)
+(* search go on with the next trace (the file ends with an Eof event); unexplained *)
+(* traces are printed (NOTOK) with the line of their first unexplained event (HWT). *)
 EXTENDS JobWorker, Json
 
 Trace == ndJsonDeserialize("trace.ndjson")
@@ -28,7 +30,7 @@ VARIABLES l, h0, bad,
           size, limit, bfirst, blast,   \* run / batch: indices (1-based) of the current batch
           preferr,   \* error the batch preparation returned (0 none)
           ans        \* Wait / RunJobWorker / BatchWork: -2 not called, -1 called, else the answer it has computed
-tvars == <<jst, jerr, pend, cause, done, slots, errf, dpc, dj, ret, lateAccept, l, h0, bad, kind, nj, pc, size, limit, bfirst, blast, preferr, ans>>
+tvars == <<jst, jerr, tail, cause, done, slots, errf, dpc, dj, ret, lateAccept, failAccept, l, h0, bad, kind, nj, pc, size, limit, bfirst, blast, preferr, ans>>
 Ev == Trace[l]
 Consume == l <= Len(Trace) /\ l' = l + 1
 B(x) == IF x THEN 1 ELSE 0
@@ -37,10 +39,10 @@ ErrCb == kind \in {"errcb", "runerrcb"}
 Min(a, b) == IF a < b THEN a ELSE b
 
 Note(reg, i) == TLCSet(reg, TLCGet(reg) \cup {i})
-FreshWorker == /\ jst' = [j \in Job |-> 0] /\ jerr' = [j \in Job |-> 0] /\ pend' = {} /\ cause' = 0
+FreshWorker == /\ jst' = [j \in Job |-> 0] /\ jerr' = [j \in Job |-> 0] /\ tail' = [j \in Job |-> <<>>] /\ cause' = 0
                /\ done' = FALSE /\ slots' = 0 /\ errf' = <<>>
 Fresh == FreshWorker /\ nj' = [j \in Job |-> 0] /\ pc' = 0 /\ preferr' = 0 /\ ans' = -2
-DU == UNCHANGED <<dpc, dj, ret, lateAccept>>      \* the model's driver is not used here
+DU == UNCHANGED <<dpc, dj, ret, lateAccept, failAccept>>      \* the model's driver is not used here
 TU == UNCHANGED <<h0, bad, kind, size, limit>> /\ DU
 BU == UNCHANGED <<bfirst, blast, preferr>>
 AU == UNCHANGED ans
@@ -61,27 +63,28 @@ GiveUp == /\ h0 # 0 /\ ~bad /\ l <= Len(Trace) /\ Ev.a \notin {"Reset", "Eof"}
 (* ---- a worker driven call by call ---- *)
 TNewJobCall == /\ Consume /\ Ev.a = "NewJobCall" /\ Direct
                /\ nj' = [nj EXCEPT ![Ev.j] = 1]
-               /\ UNCHANGED <<jst, jerr, pend, cause, done, slots, errf, pc>> /\ TU /\ BU /\ AU
+               /\ UNCHANGED <<jst, jerr, tail, cause, done, slots, errf, pc>> /\ TU /\ BU /\ AU
 LinAccept(j) == /\ Direct /\ nj[j] = 1 /\ Accept(j)
+                /\ slots < limit          \* a slot of THIS worker is free (SemSize is only the model's bound; limit = the worker's size)
                 /\ nj' = [nj EXCEPT ![j] = 2]
                 /\ UNCHANGED <<l, pc>> /\ TU /\ BU /\ AU
 (* accepted: only if the worker was open at some point of the call; refused: only if it is closed now *)
 TNewJobRet == /\ Consume /\ Ev.a = "NewJobRet"
               /\ IF Ev.ok THEN nj[Ev.j] = 2 ELSE nj[Ev.j] = 1 /\ Closed
               /\ nj' = [nj EXCEPT ![Ev.j] = 0]
-              /\ UNCHANGED <<jst, jerr, pend, cause, done, slots, errf, pc>> /\ TU /\ BU /\ AU
+              /\ UNCHANGED <<jst, jerr, tail, cause, done, slots, errf, pc>> /\ TU /\ BU /\ AU
 TDone == /\ Consume /\ Ev.a = "Done" /\ DoneCall /\ UNCHANGED <<nj, pc>> /\ TU /\ BU /\ AU
 (* Wait / LazyWait: the answer is computed at some point between the call and the return  *)
 (* (LinWait), then the deferred Cancel() runs                                             *)
 TWaitCall == /\ Consume /\ Ev.a = "WaitCall" /\ ans' = -1
-             /\ UNCHANGED <<jst, jerr, pend, cause, done, slots, errf, nj, pc>> /\ TU /\ BU
+             /\ UNCHANGED <<jst, jerr, tail, cause, done, slots, errf, nj, pc>> /\ TU /\ BU
 LinWait(e) == /\ Direct /\ ans = -1
               /\ WaitMay(e)
-              /\ e = 0 => pend = {} /\ \A j \in Job : jst[j] \in {0, 3}
+              /\ e = 0 => Pend = {} /\ \A j \in Job : jst[j] \in {0, 4}
               /\ ans' = e /\ Cancel(CANCELED)
               /\ UNCHANGED <<l, nj, pc>> /\ TU /\ BU
 TWaitRet == /\ Consume /\ Ev.a = "WaitRet" /\ ans = Ev.e /\ ans' = -2
-            /\ UNCHANGED <<jst, jerr, pend, cause, done, slots, errf, nj, pc>> /\ TU /\ BU
+            /\ UNCHANGED <<jst, jerr, tail, cause, done, slots, errf, nj, pc>> /\ TU /\ BU
 
 (* ---- jobs ---- *)
 InBatch(j) == j >= bfirst /\ j <= blast
@@ -89,48 +92,49 @@ TStart == /\ Consume /\ Ev.a = "Start"
           /\ Ev.cc = B(cause # 0)
           /\ IF Direct THEN Start(Ev.j)
              ELSE /\ jst[Ev.j] = 0 /\ InBatch(Ev.j)                      \* each index once, inside its batch
+                  /\ slots < limit                                      \* it holds a slot of the worker (size = limit; BatchWork: min(limit, size))
                   /\ kind = "batch" => Ev.last + 1 = blast               \* "last" = the batch's last index
                   /\ jst' = [jst EXCEPT ![Ev.j] = 2] /\ slots' = slots + 1
-                  /\ UNCHANGED <<jerr, pend, cause, done, errf>>
+                  /\ UNCHANGED <<jerr, tail, cause, done, errf>>
           /\ UNCHANGED <<nj, pc>> /\ TU /\ BU /\ AU
 TEnd == /\ Consume /\ Ev.a = "End"
         /\ Ev.cc = B(cause # 0)
-        /\ End(Ev.j, Ev.e)
+        /\ EndS(Ev.j, Ev.e, IF ErrCb THEN <<"errf", "release">> ELSE <<"cancel", "release">>)   \* the kind is the trace's
         /\ UNCHANGED <<nj, pc>> /\ TU /\ BU /\ AU
 LinCancelCause(j) == /\ ~ErrCb /\ CancelCauseK(j) /\ UNCHANGED <<l, nj, pc>> /\ TU /\ BU /\ AU
 TErrf == /\ Consume /\ Ev.a = "Errf" /\ ErrCb
-         /\ \E j \in pend : jerr[j] = Ev.e /\ ErrfK(j)
+         /\ \E j \in Pend : jerr[j] = Ev.e /\ ErrfK(j)
          /\ UNCHANGED <<nj, pc>> /\ TU /\ BU /\ AU
 
 (* ---- cancellation from outside: parent context (cause 100 / 101) or Close() ---- *)
 TCancelCall == /\ Consume /\ Ev.a = "CancelCall" /\ pc = 0 /\ pc' = Ev.c
-               /\ UNCHANGED <<jst, jerr, pend, cause, done, slots, errf, nj>> /\ TU /\ BU /\ AU
+               /\ UNCHANGED <<jst, jerr, tail, cause, done, slots, errf, nj>> /\ TU /\ BU /\ AU
 LinCancel == /\ pc > 0 /\ Cancel(pc) /\ pc' = -1 /\ UNCHANGED <<l, nj>> /\ TU /\ BU /\ AU
 TCancelRet == /\ Consume /\ Ev.a = "CancelRet" /\ pc = -1 /\ pc' = 0
-              /\ UNCHANGED <<jst, jerr, pend, cause, done, slots, errf, nj>> /\ TU /\ BU /\ AU
+              /\ UNCHANGED <<jst, jerr, tail, cause, done, slots, errf, nj>> /\ TU /\ BU /\ AU
 
 (* ---- RunJobWorker / BatchWork ---- *)
 (* pref of the next batch: every job of the previous batches has ended without error *)
 TPref == /\ Consume /\ Ev.a = "Pref" /\ kind = "batch"
-         /\ \A j \in Job : j <= blast => jst[j] = 3 /\ jerr[j] = 0
-         /\ pend = {} /\ preferr = 0 /\ blast < size
+         /\ \A j \in Job : j <= blast => jst[j] = 4 /\ jerr[j] = 0
+         /\ Pend = {} /\ preferr = 0 /\ blast < size
          /\ Ev.last + 1 = Min(blast + limit, size)
          /\ bfirst' = blast + 1 /\ blast' = Ev.last + 1 /\ preferr' = Ev.e
-         /\ UNCHANGED <<jst, jerr, pend, cause, done, slots, errf, nj, pc>> /\ TU /\ AU
+         /\ UNCHANGED <<jst, jerr, tail, cause, done, slots, errf, nj, pc>> /\ TU /\ AU
 (* what RunJobWorker / BatchWork answers, computed between its call and its return *)
 TRunCall == /\ Consume /\ Ev.a = "RunCall" /\ ans' = -1
-            /\ UNCHANGED <<jst, jerr, pend, cause, done, slots, errf, nj, pc>> /\ TU /\ BU
+            /\ UNCHANGED <<jst, jerr, tail, cause, done, slots, errf, nj, pc>> /\ TU /\ BU
 RunMay(e) == IF e = 0
-             THEN /\ \A j \in Job : j <= size => jst[j] = 3              \* every index visited and ended
-                  /\ pend = {} /\ preferr = 0 /\ blast = size /\ cause = 0
+             THEN /\ \A j \in Job : j <= size => jst[j] = 4              \* every index visited and ended
+                  /\ Pend = {} /\ preferr = 0 /\ blast = size /\ cause = 0
                   /\ ErrCb \/ \A j \in Job : jerr[j] = 0
              ELSE \/ cause # 0 /\ e = cause                               \* the first error / the parent's cause
                   \/ preferr # 0 /\ e = preferr
 LinRun == /\ ~Direct /\ ans = -1 /\ l <= Len(Trace)
           /\ \E e \in {0, cause, preferr} : RunMay(e) /\ ans' = e
-          /\ UNCHANGED <<jst, jerr, pend, cause, done, slots, errf, l, nj, pc>> /\ TU /\ BU
+          /\ UNCHANGED <<jst, jerr, tail, cause, done, slots, errf, l, nj, pc>> /\ TU /\ BU
 TRunRet == /\ Consume /\ Ev.a = "RunRet" /\ ans = Ev.e /\ ans' = -2
-           /\ UNCHANGED <<jst, jerr, pend, cause, done, slots, errf, nj, pc>> /\ TU /\ BU
+           /\ UNCHANGED <<jst, jerr, tail, cause, done, slots, errf, nj, pc>> /\ TU /\ BU
 
 TraceInit == /\ Init /\ l = 1 /\ h0 = 0 /\ bad = FALSE /\ kind = "base" /\ nj = [j \in Job |-> 0] /\ pc = 0
              /\ size = 0 /\ limit = 0 /\ bfirst = 1 /\ blast = 0 /\ preferr = 0 /\ ans = -2
@@ -141,7 +145,13 @@ TraceNext == \/ TReset \/ GiveUp \/ TNewJobCall \/ TNewJobRet \/ TDone \/ TWaitC
 TraceSpec == TraceInit /\ [][TraceNext]_tvars
 
 ASSUME TLCSet(1, 0) /\ TLCSet(2, {}) /\ TLCSet(3, {})
-HighWater == bad \/ l > Len(Trace) \/ TLCSet(1, IF l > TLCGet(1) THEN l ELSE TLCGet(1))
+(* register 100 + i: the furthest line reached inside trace i (its first unexplained event, if it is not explained) *)
+ASSUME \A k \in 1..Len(Trace) : Trace[k].a = "Reset" => TLCSet(100 + Trace[k].i, 0)
+HighWater == \/ bad \/ l > Len(Trace)
+             \/ /\ TLCSet(1, IF l > TLCGet(1) THEN l ELSE TLCGet(1))
+                /\ \/ h0 = 0
+                   \/ LET r == 100 + Trace[h0].i IN TLCSet(r, IF l > TLCGet(r) THEN l ELSE TLCGet(r))
 Accepted == /\ PrintT(<<"NOTOK", TLCGet(2) \ TLCGet(3)>>)
+            /\ \A i \in TLCGet(2) \ TLCGet(3) : PrintT(<<"HWT", i, TLCGet(100 + i)>>)
             /\ PrintT(<<"HW", TLCGet(1), Len(Trace)>>)
 =============================================================================
